@@ -585,6 +585,110 @@ def describe_call(spec, n):
     return '%s dtype=%s explicit_plus_hc=%s plus_hc=%s' % (c['fn'], c['strength'].get('dtype'), spec.get('explicit_plus_hc'), c.get('plus_hc'))
 
 
+def termlist_words(r, dense):
+    """every term of the implementation's term list (to_TermList of the on-site and coupling containers) as a word
+    {site: opname}.  A TermList holds no operator strings; the sites between two operators get the Jordan-Wigner string
+    'JW' when an odd number of operators to their left is fermionic, i.e. anticommutes with the local 'JW' (the rule by which
+    all add_* calls choose their strings), nothing otherwise.  Several operators on one site are multiplied in the order written."""
+    out = []
+    for term, st in r['termlist']:
+        srt = sorted(term, key=lambda t: t[1])          # (stable: operators on one site keep their order)
+        w = {}
+        parity = False
+        for n, (o, k) in enumerate(srt):
+            w[k] = (w[k] + ' ' + o) if k in w else o
+            j_ = dense.local('JW', k)
+            for part in o.split(' '):            # (composite names 'A B': product of the parts, parities add up)
+                m_ = dense.local(part, k)
+                odd = bool(np.max(np.abs(m_)) > 0 and np.max(np.abs(j_ @ m_ @ j_ + m_)) <= 1e-12 * np.max(np.abs(m_)))
+                parity = parity != odd
+            if n + 1 < len(srt) and parity:
+                for q in range(k + 1, srt[n + 1][1]):
+                    w[q] = 'JW'
+        out.append((complex(*st), w))
+    return out
+
+
+def word_normal_form(words, L, finite, tol):
+    """sum of strengths per word; 'Id' dropped; infinite: translated such that the left-most operator is in the first cell"""
+    nf = {}
+    for st, w in words:
+        items = sorted((k, o) for k, o in w.items() if o != 'Id')
+        if not items:
+            continue
+        sh = 0 if finite else (items[0][0] // L) * L
+        key = tuple((k - sh, o) for k, o in items)
+        nf[key] = nf.get(key, 0) + st
+    return {k: v for k, v in nf.items() if abs(v) > tol}
+
+
+def fmt_word(key):
+    return ' '.join('%s_%d' % (o if ' ' not in o else '[' + o + ']', k) for k, o in key)
+
+
+def check_termlist(r, geo, dense, Href, Hc, mats, tol):
+    """the term list against (a) the reference operator (dense, on the window) and (b) the words of the term containers
+    (all terms, also those that do not fit into the window).  Exponentially decaying terms are not part of the term list.
+    Returns (problems, number of terms of the list whose right part lies beyond the first unit cell)"""
+    problems = []
+    L, finite = r['L'], r['finite']
+    words = termlist_words(r, dense)
+    far = sum(1 for _, w in words if len(w) >= 2 and max(w) >= L)
+    # (a) dense
+    shifts = geo.translations()
+    H = np.zeros((dense.D, dense.D), dtype=complex)
+    for st, w in words:
+        for sh in shifts:
+            w2 = {k + sh: o for k, o in w.items()}
+            if dense.inside(w2):
+                H = H + st * dense.tensor(w2)
+    if r['explicit_plus_hc']:
+        H = H + H.conj().T
+    ref = Href
+    ex = r.get('exp') or {}
+    if (ex.get('exp') or ex.get('centered')) and Hc is not None:
+        ref = Href - (Hc - O.dense_from_containers(dict(r, exp={'exp': [], 'centered': []}), dense)[0])
+    elif ex.get('exp') or ex.get('centered'):
+        ref = None
+    if ref is not None:
+        d = maxdiff(H, ref)
+        if d > tol:
+            problems.append(('C10:termlist:dense', 'the term list (all_onsite_terms().to_TermList() + all_coupling_terms().to_TermList()) differs '
+                             'from the reference operator by %.3e on the window of %d sites' % (d, dense.n)))
+        if 'H_mpo_from_termlist' in mats:
+            d = maxdiff(mats['H_mpo_from_termlist'], ref)
+            if d > tol:
+                problems.append(('C10:termlist:from_term_list', 'the MPO re-built from the term list (MPOGraph.from_term_list(...).build_MPO()) differs '
+                                 'from the reference operator by %.3e' % d))
+    # (b) word for word against the containers (which the MPO graph is built from)
+    cw = []
+    for i, op, st in r['onsite']:
+        cw.append((complex(*st), {i: op}))
+    for i, a, s, j, b, st in (r.get('coupling') or []):
+        w = {i: a, j: b}
+        for q in range(i + 1, j):
+            w[q] = s
+        cw.append((complex(*st), w))
+    for t in (r.get('multi') or []):
+        cw.append((complex(*t['strength']), {k: o for k, o in t['word']}))
+    nf_l = word_normal_form(words, L, finite, 1e-13)
+    nf_c = word_normal_form(cw, L, finite, 1e-13)
+    bad = [k for k in set(nf_l) | set(nf_c) if abs(nf_l.get(k, 0) - nf_c.get(k, 0)) > 1e-12 * max(1.0, abs(nf_c.get(k, 0)))]
+    if bad:
+        only_l = sorted(k for k in bad if k not in nf_c)
+        only_c = sorted(k for k in bad if k not in nf_l)
+        txt = 'the term list and the term containers (which the MPO is built from) list different terms: '
+        if only_l or only_c:
+            txt += 'only in the term list: %s; only in the containers: %s' % (
+                ', '.join('%s * %s' % (nf_l[k], fmt_word(k)) for k in only_l[:3]) or '-',
+                ', '.join('%s * %s' % (nf_c[k], fmt_word(k)) for k in only_c[:3]) or '-')
+        else:
+            k = sorted(bad)[0]
+            txt += '%s has strength %s in the term list and %s in the containers' % (fmt_word(k), nf_l[k], nf_c[k])
+        problems.append(('C10:termlist:words', txt))
+    return problems, far
+
+
 def check_case(ctx, case, r, fam_store):
     """oracle for one case; returns (info for the Coq stream or None)"""
     is_spec = case['kind'] == 'spec'
@@ -718,6 +822,15 @@ def check_case(ctx, case, r, fam_store):
         what='the original MPO after H.copy().sort_legcharges()')
     cmp('H_enlarged', Href, what='MPO after enlarge_mps_unit_cell(2)')
     cmp('H_enlarged_bond', Href_bond, what='H_bond after enlarge_mps_unit_cell(2)')
+    if 'termlist' in r and 'onsite' in r:
+        tl_problems, far = check_termlist(r, geo, dense, Href, Hc, mats, tol)
+        problems.extend(tl_problems)
+        ctx.count('termlist', [case.get('spec') or [case['module'], case['cls'], case['params']], case.get('variant')],
+                  nontrivial=len(r['termlist']) > 0, sample={'terms': len(r['termlist']), 'beyond_first_cell': far, 'finite': finite})
+        if far and not finite:
+            ctx.cov['termlist_infinite_cases_with_terms_beyond_first_cell'] = ctx.cov.get('termlist_infinite_cases_with_terms_beyond_first_cell', 0) + 1
+            if r.get('multi') and any(t['shift'] != 0 and t['right'] for t in r['multi']):
+                ctx.cov['termlist_infinite_multi_shifted_right_part'] = ctx.cov.get('termlist_infinite_multi_shifted_right_part', 0) + 1
     def same_operator(m, ref):
         """equal (no charges: same basis) or, for charge-sorted grouped bases, equal spectrum of a Hermitian operator"""
         if m.shape != ref.shape:
@@ -1028,6 +1141,46 @@ def gen_tie_specs(rng, n_bond, n_exp):
     return cases
 
 
+def gen_termlist_specs(rng, n):
+    """models whose summed coupling terms are a MultiCouplingTerms container, mostly on infinite chains / ladders with unit cells of
+    2..4 sites, so that terms reach beyond the first unit cell (stored folded back with a unit-cell shift): aimed at the term list
+    (to_TermList) <-> containers <-> MPO comparison.  Only the containers, the term list and the MPO are exported (cheap)."""
+    cases = []
+    for n_ in range(n):
+        for _try in range(300):
+            kind = rng.choice(['Chain', 'Chain', 'Chain', 'Ladder'])
+            infinite = rng.random() < 0.85
+            if kind == 'Chain':
+                Ls = [rng.choice([2, 3, 4, 4]) if infinite else rng.choice([4, 5, 6])]
+            else:
+                Ls = [rng.choice([1, 2]) if infinite else 3]
+            nu = LATTICES[kind][1]
+            nwin = 2 if infinite else 1
+            N = Ls[0] * nu * nwin
+            if N > 8:
+                continue
+            lat = {'kind': kind, 'Ls': Ls, 'bc': 'periodic' if infinite else rng.choice(['open', 'open', 'periodic']),
+                   'bc_MPS': 'infinite' if infinite else 'finite'}
+            sites = gen_sites(rng, nu, N)
+            if sites is None:
+                continue
+            exact = rng.random() < 0.5
+            explicit = rng.random() < 0.2
+            calls = [c for c in gen_calls(rng, lat, 1, nu, sites, exact, explicit) if not c['fn'].startswith('add_exponentially')]
+            if not any(c['fn'] in ('add_multi_coupling', 'add_multi_coupling_term') or (c['fn'] == 'add_local_term' and len(c['term']) >= 3)
+                       for c in calls):
+                continue
+            for c in calls:
+                if c['fn'] == 'add_multi_coupling' and rng.random() < 0.5 and (infinite or lat['bc'] == 'periodic'):
+                    # site-dependent strength (one entry per cell along the chain)
+                    c['strength'] = rand_strength(rng, Ls, exact, exact and explicit and not c['plus_hc'])
+            spec = {'lattice': lat, 'sites': sites, 'explicit_plus_hc': explicit, 'calls': calls}
+            cases.append({'kind': 'spec', 'spec': spec, 'nwin': nwin, 'family': 'L%d' % n_, 'variant': 'base', 'exact': exact,
+                          'want': ['termlist'], 'tie': 'termlist'})
+            break
+    return cases
+
+
 def bond_literal(r):
     """case of check_bond (coq/Model/AutomatonTieCheck.v): the containers and the implementation's H_bond, every H_bond[j]
     decomposed into named operator products with exact (doubled) Gaussian-integer coefficients.
@@ -1230,6 +1383,7 @@ def main(ctx):
     if nfam:
         # (generated last: the random sequences of the older streams stay as they were)
         cases.extend(gen_tie_specs(rng, ctx.pick(90, 600), ctx.pick(70, 500)))
+        cases.extend(gen_termlist_specs(rng, ctx.pick(80, 600)))
     # ---- implementation
     nchunk = common.NPROC
     order = list(range(len(cases)))
@@ -1374,5 +1528,9 @@ def main(ctx):
 RULE = ('models: random coupling models (chain/ladder/square/triangular/honeycomb, open/periodic/infinite, spin/boson/fermion/mixed sites, '
         'integer/Gaussian/float/complex scalar and site-dependent strengths, all add_* calls, plus_hc x explicit_plus_hc x manual h.c., '
         'sort_mpo_legs, group_sites, extract_segment, enlarge_mps_unit_cell), non-trivial when at least one term lies in the window; '
+        'termlist: the term list (to_TermList of all on-site and coupling terms) of every random and predefined coupling model, dense on the '
+        'window against the reference operator, re-built into an MPO with MPOGraph.from_term_list (models without Jordan-Wigner operators), '
+        'and word for word against the term containers; extra models with multi-site couplings on infinite chains/ladders whose terms reach '
+        'beyond the first unit cell; '
         'predefined: every model class of tenpy.models x parameter sets x conserve options; c10_build / c10_build_multi / c10_denote / c10_bond / '
         'c10_expdecay / c10_split: Coq evaluations (model recomputes what the implementation returned).')
